@@ -101,6 +101,7 @@ type Machine struct {
 	Stats     map[string]int
 	StepLimit int // non-yielding statements per Next
 	steps     int
+	jumpSeen  map[*hast.Stmt]string
 }
 
 // New creates a machine positioned at the first node. vars is the initial content
@@ -394,6 +395,15 @@ func (m *Machine) Next(choice int) Outcome {
 				}
 				target = v.S
 				m.Stats["jump-by-expression"]++
+				if s.X.K == hast.EVar {
+					if m.jumpSeen == nil {
+						m.jumpSeen = map[*hast.Stmt]string{}
+					}
+					if prev, ok := m.jumpSeen[s]; ok && prev != target {
+						m.Stats["same-jump-statement-different-target"]++
+					}
+					m.jumpSeen[s] = target
+				}
 			}
 			n := m.Prog.Find(target)
 			if n == nil {
